@@ -22,7 +22,10 @@ Bases == << DZero, Norm(FALSE, <<9, 0, 0, 7, 1, 9, 9, 2, 5, 4, 7, 4, 0, 9, 2, 8>
             Norm(FALSE, <<9, 9, 9, 9, 9, 9, 9, 9, 9, 9, 8, 0, 0, 0, 0>>, 0),               \* 10^15 - 20000: 15 digits throughout
             Norm(TRUE, <<9, 9, 9, 9, 9, 9, 9, 9, 9, 9, 9, 9, 9, 9, 9>>, 0),                \* -(10^15 - 1) upwards
             Norm(FALSE, <<9, 9, 9, 9, 9, 9, 9, 9, 9, 9, 9, 9, 0, 0, 0>>, 0),               \* crossing 10^15
-            Norm(TRUE, <<9, 0, 0, 7, 1, 9, 9, 2, 5, 4, 7, 5, 0, 0, 0, 0>>, 0) >>           \* -(2^53 + 8)
+            Norm(TRUE, <<9, 0, 0, 7, 1, 9, 9, 2, 5, 4, 7, 5, 0, 0, 0, 0>>, 0),             \* -(2^53 + 8)
+            Norm(FALSE, <<9, 2, 2, 3, 3, 7, 2, 0, 3, 6, 8, 5, 4, 7, 7, 5, 7, 4, 4>>, 0),   \* 2^63 - 64: crosses the int64 limit
+            Norm(FALSE, <<1, 8, 4, 4, 6, 7, 4, 4, 0, 7, 3, 7, 0, 9, 5, 3, 1, 6, 1, 6>>, 0), \* 2^64 - 20000: up to the uint64 limit
+            Norm(TRUE, <<9, 2, 2, 3, 3, 7, 2, 0, 3, 6, 8, 5, 4, 7, 7, 5, 8, 0, 8>>, 0) >>   \* -2^63 upwards
 Carriers == <<"json", "int64", "uint64", "decimal", "float64", "int">>
 
 VARIABLES bucket, idx
